@@ -51,7 +51,7 @@ def w_value(v):
     return [tag, str(x)]
 
 
-WIRE_KIND = {'pydict': 'json', 'pyjson': 'json', 'pylist': 'columnar', 'csv': 'csv', 'tsv': 'csv', 'xlsx': 'csv', 'parquet': 'columnar', 'feather': 'columnar', 'orc': 'columnar', 'json': 'json', 'xml': 'xml',
+WIRE_KIND = {'ssv': 'csv', 'pydict': 'json', 'pyjson': 'json', 'pylist': 'columnar', 'csv': 'csv', 'tsv': 'csv', 'xlsx': 'csv', 'parquet': 'columnar', 'feather': 'columnar', 'orc': 'columnar', 'json': 'json', 'xml': 'xml',
              'view': 'view', 'sqltable': 'sqltable', 'sqlquery': 'sqlquery', 'frame': 'frame'}
 
 
@@ -236,7 +236,7 @@ def render_source(V, src, style, paths):
         # R2RML has no file sources: the logical table is given by file_path in the configuration
         return '%s [ %s %s ]' % (_p(V.logical_source), _p(V.table_name), ttl_str('unused'))
     parts = ['%s %s' % (_p(V.source), ttl_str(paths[src['key']]))]
-    rf = {'csv': 'CSV', 'tsv': 'CSV', 'json': 'JSONPath', 'xml': 'XPath'}.get(kind)
+    rf = {'csv': 'CSV', 'tsv': 'CSV', 'ssv': 'CSV', 'json': 'JSONPath', 'xml': 'XPath'}.get(kind)
     if rf and not src.get('no_reffor'):
         parts.append('%s %s' % (_p(V.reffor), _p(RML + rf if style.vocab == 'rml' else 'http://semweb.mmlab.be/ns/ql#' + rf)))
     if src.get('iterator'):
@@ -438,6 +438,11 @@ def materialise_files(case, wd, style=None, name='m'):
         if kind in ('csv', 'tsv'):
             fn = '%s_%d.%s' % (name, i, kind)
             write_csv(os.path.join(wd, fn), s['cols'], s['rows'], ',' if kind == 'csv' else '\t')
+            paths[s['key']] = fn
+        elif kind == 'ssv':
+            # a .csv file whose delimiter is a semicolon: read through the delimiter-sniffing fallback of _read_csv
+            fn = '%s_%d.csv' % (name, i)
+            write_csv(os.path.join(wd, fn), s['cols'], s['rows'], ';')
             paths[s['key']] = fn
         elif kind == 'json':
             fn = '%s_%d.json' % (name, i)
